@@ -172,6 +172,31 @@ def gen_append(r, F, R, X):
     return {"src": "X", "target": list(r.choice(xp)), "mode": mode, "tree": r.choice([True, False, None]), "emdpath": ep}
 
 
+def plant_scratch_pair(r, F, R):
+    """directed coincidence: a node `x` that file and runtime tree share (same parent path), and in the FILE a sibling called
+    like the writer's scratch name for it, `_tmp_x` — an ordinary node with a child of its own.  Returns the path of `x`."""
+    def common_holders(f, rt, path):
+        out = []
+        fk = {k["name"]: k for k in f["kids"]}
+        for k in rt["kids"]:
+            if k["name"] in fk:
+                out.append((f, rt, path, k["name"]))
+                out += common_holders(fk[k["name"]], k, path + [k["name"]])
+        return out
+    cands = [c for c in common_holders(F, R, []) if ("_tmp_" + c[3]) not in (gen.reserved_names(c[0]) if c[0]["cls"] != "Root" else {"metadatabundle"})]
+    if cands:
+        f, rt, path, x = r.choice(cands)
+    else:
+        f, rt, path, x = F, R, [], "px"
+        for t in (F, R):
+            if "px" not in [k["name"] for k in t["kids"]]:
+                t["kids"].append({"name": "px", "cls": "Node", "pay": {}, "md": [], "kids": []})
+    if ("_tmp_" + x) not in [k["name"] for k in f["kids"]]:
+        f["kids"].append({"name": "_tmp_" + x, "cls": "Node", "pay": {}, "md": [],
+                          "kids": [{"name": "kept", "cls": "Node", "pay": {}, "md": [], "kids": []}]})
+    return path + [x]
+
+
 def cases(tier, seed):
     n = 150 if tier == "quick" else 2500
     for i in range(n):
@@ -179,6 +204,16 @@ def cases(tier, seed):
         F, R = gen_pair(r)
         X = gen.gen_tree(r, rootname="X0", maxdepth=2, odd=0.05, avoid_prefix=["R", "X"])
         # foreign names must not collide trivially everywhere: prefix them
+        if i % 6 == 3:
+            # directed: an append-over that REPLACES a node whose sibling in the file is called `_tmp_<its name>`
+            px = plant_scratch_pair(r, F, R)
+            how = r.random()
+            if how < 0.5:
+                ap = {"src": "R", "target": [], "mode": r.choice(["ao", "appendover", "oa"]), "tree": True, "emdpath": None}
+            else:
+                ap = {"src": "R", "target": px, "mode": r.choice(["ao", "+o"]), "tree": r.choice([True, False]), "emdpath": None}
+            yield mk_case(F, R, [ap] + [gen_append(r, F, R, X) for _ in range(r.choice([0, 1]))], foreign=X)
+            continue
         appends = [gen_append(r, F, R, X) for _ in range(r.choice([1, 1, 2, 3]))]
         yield mk_case(F, R, appends, foreign=X)
 
